@@ -376,7 +376,7 @@ ADD_URLS = ["http://a.com", "http://a.com/", "http://a.com/p?x=1", "http://a.com
 def _addarg_strategy(tier):
     name_q = st.sampled_from(KEYS[:12] + ["new", "n1"])
     name_raw = st.sampled_from(["new", "n1", "a", "x", "k-1", "%41", "utm_x"])
-    val_q = st.sampled_from([v for v in VALS if v is not False])
+    val_q = st.sampled_from(list(VALS))     # False included: it is a value like any other here (only True is a bare key, None an empty one)
     val_raw = st.sampled_from(["v", "1", "%20", "a+b", "x/y", None, True, "7", "2.5", "a=b", "=="])
 
     def mk(v):
